@@ -1313,33 +1313,57 @@ package mqtt
 //@ requires s.Options != nil && s.Options.Capabilities != nil && c == nil && !inline
 //@ ensures r0 != nil && fresh(r0) && r0.ID == id && r0.Net.Listener == listener && r0.State.Inflight != nil && r0.State.Subscriptions != nil && r0.State.Subscriptions.internal != nil
 //@ ensures r0.ops != nil && r0.ops.options == s.Options && r0.ops.info == s.Info && r0.ops.hooks == s.hooks
+// the objects New() gives a server, which the restart path uses and never replaces
+// verif:def serverObjects(s *Server) bool = s != nil && s.Options != nil && s.Options.Capabilities != nil && s.Clients != nil && s.hooks != nil && s.Topics != nil && s.Topics.root != nil && s.Log != nil
+// verif:def serverObjectsKept(s *Server) bool = s.Options == old(s.Options) && s.Options.Capabilities == old(s.Options.Capabilities) && s.Clients == old(s.Clients) && s.hooks == old(s.hooks) && s.Topics == old(s.Topics) && s.Topics.root == old(s.Topics.root) && s.Log == old(s.Log)
 // verif:def restoredSession(cl *Client, c storage.Client) bool = cl != nil && cl.ID == c.ID && cl.Net.Listener == c.Listener && cl.Properties.Username == c.Username && (cl.Properties.Clean <==> c.Clean) && cl.Properties.ProtocolVersion == c.ProtocolVersion
 // verif:def restoredSessionProps(cl *Client, c storage.Client) bool = cl != nil && cl.Properties.Props.SessionExpiryInterval == c.Properties.SessionExpiryInterval && (cl.Properties.Props.SessionExpiryIntervalFlag <==> c.Properties.SessionExpiryIntervalFlag) && cl.Properties.Props.RequestProblemInfo == c.Properties.RequestProblemInfo && (cl.Properties.Props.RequestProblemInfoFlag <==> c.Properties.RequestProblemInfoFlag) && cl.Properties.Props.RequestResponseInfo == c.Properties.RequestResponseInfo && cl.Properties.Props.ReceiveMaximum == c.Properties.ReceiveMaximum && cl.Properties.Props.TopicAliasMaximum == c.Properties.TopicAliasMaximum && cl.Properties.Props.MaximumPacketSize == c.Properties.MaximumPacketSize
 // verif:def restoredWill(cl *Client, c storage.Client) bool = cl != nil && cl.Properties.Will.TopicName == c.Will.TopicName && cl.Properties.Will.Payload == c.Will.Payload && cl.Properties.Will.Qos == c.Will.Qos && (cl.Properties.Will.Retain <==> c.Will.Retain) && cl.Properties.Will.Flag == c.Will.Flag && cl.Properties.Will.WillDelayInterval == c.Will.WillDelayInterval
 // a stored session that ended with its connection (MQTT 5 expiry interval 0, MQTT 3 clean session) is not restored
 // verif:def endsWithConnection(c storage.Client) bool = (c.ProtocolVersion == 5 && c.Properties.SessionExpiryInterval == 0) || (c.ProtocolVersion < 5 && c.Clean)
 // verif:func mqtt.Server.loadClients modifies=all
-//@ requires s.Options != nil && s.Options.Capabilities != nil && s.Clients != nil && s.hooks != nil
+//@ requires serverObjects(s)
+//@ axiom sessionsRestored
 //@ callsite mqtt.Clients.Add C20-a-restored-session-has-the-stored-identity: arg0 == s.Clients && restoredSession(arg1, c) && !endsWithConnection(c)
 //@ callsite mqtt.Clients.Add C20-a-restored-session-has-the-stored-expiry-and-connect-properties: restoredSessionProps(arg1, c)
 //@ callsite mqtt.Clients.Add C20-a-restored-session-has-the-stored-will: restoredWill(arg1, c)
 //@ callsite mqtt.Server.UnsubscribeClient C20-only-a-session-that-ended-with-its-connection-is-dropped: endsWithConnection(c)
+//@ ensures restart-path-objects-kept: serverObjectsKept(s)
 // verif:loop mqtt.Server.loadClients 1
-//@ invariant s.Options != nil && s.Options.Capabilities != nil && s.Clients != nil && s.hooks != nil
+//@ invariant serverObjects(s) && serverObjectsKept(s)
 // verif:def restoredSubscription(sb packets.Subscription, r storage.Subscription) bool = sb.Filter == r.Filter && sb.Qos == r.Qos && sb.Identifier == r.Identifier && (sb.NoLocal <==> r.NoLocal) && sb.RetainHandling == r.RetainHandling && (sb.RetainAsPublished <==> r.RetainAsPublished)
 // verif:func mqtt.Server.loadSubscriptions modifies=all
-//@ requires s.Topics != nil && s.Topics.root != nil && s.Clients != nil
+//@ requires serverObjects(s)
 //@ callsite mqtt.TopicsIndex.Subscribe C20-a-restored-subscription-has-the-stored-client-filter-and-options: arg0 == s.Topics && arg1 == sub.Client && restoredSubscription(arg2, sub)
 //@ callsite mqtt.Subscriptions.Add C20-a-restored-subscription-is-entered-in-its-sessions-own-list: arg1 == sub.Filter && restoredSubscription(arg2, sub) && has(s.Clients.internal, sub.Client) && arg0 == s.Clients.internal[sub.Client].State.Subscriptions
+//@ ensures restart-path-objects-kept: sessionsRestored == old(sessionsRestored) && serverObjectsKept(s)
 // verif:loop mqtt.Server.loadSubscriptions 1
-//@ invariant s.Topics != nil && s.Topics.root != nil && s.Clients != nil
+//@ invariant serverObjects(s) && sessionsRestored == old(sessionsRestored) && serverObjectsKept(s)
 // verif:func mqtt.Server.loadInflight modifies=all
-//@ requires s.Clients != nil
+//@ requires serverObjects(s)
+//@ ensures restart-path-objects-kept: serverObjectsKept(s)
 //@ callsite mqtt.Inflight.Set C20-a-restored-in-flight-message-goes-to-its-sessions-in-flight-store: has(s.Clients.internal, msg.Client) && arg0 == s.Clients.internal[msg.Client].State.Inflight && arg1.PacketID == msg.PacketID && arg1.TopicName == msg.TopicName && arg1.FixedHeader.Type == msg.FixedHeader.Type && arg1.FixedHeader.Qos == msg.FixedHeader.Qos && arg1.Created == msg.Created && arg1.Expiry == msg.Expiry
 // verif:loop mqtt.Server.loadInflight 1
-//@ invariant s.Clients != nil
+//@ invariant serverObjects(s) && serverObjectsKept(s)
 // verif:func mqtt.Server.loadRetained modifies=all
-//@ requires s.Topics != nil
+//@ requires serverObjects(s)
 //@ callsite mqtt.TopicsIndex.RetainMessage C20-a-restored-retained-message-is-put-back-under-its-topic: arg0 == s.Topics && arg1.TopicName == msg.TopicName && sameBytes(arg1.Payload, msg.Payload) && arg1.FixedHeader.Qos == msg.FixedHeader.Qos && arg1.Created == msg.Created && arg1.Expiry == msg.Expiry && arg1.ProtocolVersion == msg.Version
 // verif:loop mqtt.Server.loadRetained 1
-//@ invariant s.Topics != nil
+//@ invariant serverObjects(s)
+// the order of the restart path: subscriptions and in-flight messages are attached to restored sessions, which are looked up in the
+// client registry, so the sessions must have been restored first (whenever a hook provides stored clients at all)
+// verif:ghost var sessionsRestored bool
+// verif:spec providesOne(*Hooks, byte) bool
+// verif:func mqtt.Hooks.Provides trusted pure
+//@ ensures len(b) == 1 ==> r0 == providesOne(h, b[0])
+// verif:func mqtt.Hooks.StoredClients trusted pure
+// verif:func mqtt.Hooks.StoredSubscriptions trusted pure
+// verif:func mqtt.Hooks.StoredInflightMessages trusted pure
+// verif:func mqtt.Hooks.StoredRetainedMessages trusted pure
+// verif:func mqtt.Hooks.StoredSysInfo trusted pure
+// verif:func mqtt.Server.loadServerInfo trusted
+// verif:func mqtt.Server.readStore modifies=all
+//@ requires serverObjects(s) && !sessionsRestored
+//@ callsite mqtt.Server.loadClients C20-sessions-are-restored-first: arg0 == s && !sessionsRestored
+//@ callsite mqtt.Server.loadSubscriptions C20-sessions-are-restored-before-their-subscriptions: arg0 == s && (providesOne(s.hooks, StoredClients) ==> sessionsRestored)
+//@ callsite mqtt.Server.loadInflight C20-sessions-are-restored-before-their-in-flight-messages: arg0 == s && (providesOne(s.hooks, StoredClients) ==> sessionsRestored)
